@@ -4,7 +4,7 @@
    CENTRED data (what np.dot(values.T, values) works on). *)
 From Coq Require Import List Reals Permutation QArith.
 From FDAV Require Import Base.Num Base.Vec Base.Quad Model.Stats Gen.Consts
-  Lemmas.Vec Lemmas.Gram Lemmas.Stats Lemmas.NoiseConst Lemmas.CovPerm Lemmas.CovShift Gen.Helpers Lemmas.GenHelpers.
+  Lemmas.Vec Lemmas.Gram Lemmas.Stats Lemmas.NoiseConst Lemmas.CovPerm Lemmas.CovShift Gen.NoiseVar Lemmas.GenNoiseVar.
 Import ListNotations.
 Local Open Scope R_scope.
 
@@ -87,7 +87,7 @@ Print Assumptions C09_diffseq_facts.
 Theorem C09_diffseq_orders : map fst diff_sequences = seq 1 10.
 Proof. exact diff_sequences_orders. Qed.
 Print Assumptions C09_diffseq_orders.
-(* ---------- the estimator as TRANSLATED from /repo/FDApy/misc/utils.py on this run (Gen/Helpers.v) ----------
+(* ---------- the estimator as TRANSLATED from /repo/FDApy/misc/utils.py on this run (Gen/NoiseVar.v) ----------
    _estimate_noise_variance, as the source reads now, applied with the difference sequences the source holds now
    (dgetR = DIFF_SEQUENCES.get, Gen/Consts.v): raises exactly for orders outside 1..10; otherwise it is the model
    estimator on the sequence of that order — non-negative, scaling with the square of a factor, zero for curves
